@@ -22,7 +22,7 @@ out11 += ['', 'Independently seeded changes (`seeded/<name>/`: patch.diff, demo.
           '| seeded change | property | needs to manifest | caught by | first attempt |', '|---|---|---|---|---|']
 for d in sorted(glob.glob(os.path.join(V, 'seeded', '*', 'meta.json'))):
   m = json.load(open(d))
-  out11.append('| `%s` | %s | %s | %s | %s |' % (os.path.basename(os.path.dirname(d)), m['property'], m.get('needs_to_manifest', ''), ', '.join(m.get('caught_by') or []) or '-', m.get('first_attempt', 'caught as built') if m.get('status', 'kept') == 'kept' else m.get('status')))
+  out11.append('| `%s` | %s | %s | %s | %s |' % (os.path.basename(os.path.dirname(d)), m['property'], m.get('needs_to_manifest', ''), ', '.join(m.get('caught_by') or []) or '-', m.get('first_attempt', 'caught as built') if m.get('status', 'kept') == 'kept' else ('%s: %s' % (m.get('status'), m.get('history', m.get('first_attempt', ''))))))
 p = os.path.join(V, 'DESIGN.md')
 s = open(p).read()
 for tag, body in (('9', out9), ('11', out11)):
